@@ -173,6 +173,171 @@ pub use self::{
 
 pub(crate) use self::into_usize::IntoUsize;
 
+// ---- SHIM for Settings::merge / Settings::or (C36): names only -------------------------
+pub use std::path::PathBuf;
+pub use self::settings_extract::Settings;
+
+/// stand-in for ord's Chain (only stored and compared here)
+#[derive(Default, Debug, Clone, Copy, Serialize, Deserialize, PartialEq)]
+pub enum Chain {
+  #[default]
+  Mainnet,
+  Regtest,
+  Signet,
+  Testnet,
+  Testnet4,
+}
+
+/// stand-in for clap's parsed options (consumed only by Settings::from_options)
+pub struct Options {
+  pub placeholder: u8,
+}
+
+/// stand-in for std::fs::File
+pub struct File {
+  pub placeholder: u8,
+}
+
+impl File {
+  pub fn open(_path: &PathBuf) -> std::result::Result<File, std::io::Error> {
+    #[cfg(test)]
+    settings_replay::opened(_path);
+    Ok(File { placeholder: 0 })
+  }
+}
+
+/// stand-in for the serde_yaml crate
+pub mod serde_yaml {
+  pub fn from_reader(_file: super::File) -> std::result::Result<super::Settings, std::io::Error> {
+    #[cfg(test)]
+    if let Some(c) = super::settings_replay::with(|s| s.c.clone()) {
+      return Ok(c);
+    }
+    Ok(super::Settings::default())
+  }
+}
+
+/// `.context(anyhow!(..))` in settings.rs passes an Error value (the shim's general
+/// Context takes a literal); settings_extract imports this one under the name Context
+pub mod settings_shim {
+  use super::{Error, Result};
+
+  pub trait ContextErr<T, M> {
+    fn context(self, m: M) -> Result<T>;
+  }
+
+  impl<T, E> ContextErr<T, Error> for std::result::Result<T, E> {
+    fn context(self, m: Error) -> Result<T> {
+      match self {
+        Ok(t) => Ok(t),
+        Err(_) => Err(m),
+      }
+    }
+  }
+
+  impl<T> ContextErr<T, &'static str> for Option<T> {
+    fn context(self, m: &'static str) -> Result<T> {
+      match self {
+        Some(t) => Ok(t),
+        None => Err(Error::msg_static(m)),
+      }
+    }
+  }
+
+  impl From<&'static str> for Error {
+    fn from(m: &'static str) -> Self {
+      Error::msg_static(m)
+    }
+  }
+}
+
+/// stand-in for the `dirs` crate (the OS's directories)
+pub mod dirs {
+  pub fn home_dir() -> Option<std::path::PathBuf> {
+    #[cfg(test)]
+    if let Some(p) = super::settings_replay::with(|s| s.home.clone()) {
+      return Some(p);
+    }
+    None
+  }
+
+  pub fn data_dir() -> Option<std::path::PathBuf> {
+    #[cfg(test)]
+    if let Some(p) = super::settings_replay::with(|s| s.data.clone()) {
+      return Some(p);
+    }
+    None
+  }
+}
+
+/// stand-in for sysinfo::System
+pub struct System {
+  pub placeholder: u8,
+}
+
+impl System {
+  pub fn new() -> Self {
+    Self { placeholder: 0 }
+  }
+
+  pub fn refresh_memory(&mut self) {}
+
+  pub fn total_memory(&self) -> u64 {
+    #[cfg(test)]
+    if let Some(m) = settings_replay::with(|s| s.mem) {
+      return m;
+    }
+    0
+  }
+}
+
+impl Chain {
+  pub fn join_with_data_dir(self, data_dir: impl AsRef<std::path::Path>) -> PathBuf {
+    match self {
+      Self::Mainnet => data_dir.as_ref().to_owned(),
+      Self::Regtest => data_dir.as_ref().join("regtest"),
+      Self::Signet => data_dir.as_ref().join("signet"),
+      Self::Testnet => data_dir.as_ref().join("testnet3"),
+      Self::Testnet4 => data_dir.as_ref().join("testnet4"),
+    }
+  }
+
+  pub fn default_rpc_port(self) -> u16 {
+    match self {
+      Self::Mainnet => 8332,
+      Self::Regtest => 18443,
+      Self::Signet => 38332,
+      Self::Testnet => 18332,
+      Self::Testnet4 => 48332,
+    }
+  }
+}
+
+/// placeholders for the Settings constructors that read clap/env/the OS; the checks replace
+/// them by stated stubs
+impl Settings {
+  pub fn from_options(_options: Options) -> Self {
+    #[cfg(test)]
+    if let Some(a) = settings_replay::with(|s| s.a.clone()) {
+      return a;
+    }
+    Self::default()
+  }
+
+  pub fn from_env(_env: BTreeMap<String, String>) -> Result<Self> {
+    #[cfg(test)]
+    if let Some(b) = settings_replay::with(|s| s.b.clone()) {
+      return Ok(b);
+    }
+    Ok(Self::default())
+  }
+}
+
+#[cfg(test)]
+pub mod settings_replay;
+
+pub mod settings_extract; // GENERATED: real struct Settings + Settings::merge + Settings::or
+
 // ---- real files (copied from /repo/src at run time) ----
 pub mod into_usize;
 pub mod decimal;
